@@ -418,6 +418,13 @@ class SV:
                     return self
                 if o == 0:
                     return SV(_ZERO)
+                if isinstance(o, (float, np.floating)) and float(o) in (_INF, -_INF):
+                    # IEEE semantics of (+-inf) * x, decided by the sign of x on this path: a concrete float comes back
+                    if ENG.branch(self.e > 0):
+                        return float(o)
+                    if ENG.branch(self.e < 0):
+                        return -float(o)
+                    return float('nan')
             return SV(self.e * zr(o))
         except TypeError:
             return NotImplemented
@@ -509,6 +516,8 @@ class SV:
     def _cmp(self, o, op):
         if isinstance(o, (float, np.floating)) and float(o) in (_INF, -_INF):
             return _cmp_inf(op, float(o) > 0)
+        if isinstance(o, (float, np.floating)) and o != o:
+            return op == 'ne'          # IEEE: every comparison with nan is False, != is True
         if isinstance(o, SC) or _is_cplx_const(o):
             if op in ('eq', 'ne'):
                 return getattr(SC(self.e, _ZERO), f'__{op}__')(o)
